@@ -5,13 +5,14 @@ ROOT = os.path.dirname(os.path.dirname(os.path.abspath(__file__)))
 sys.path[:0] = [ROOT, "/repo"]
 props = [json.loads(l) for l in open(os.path.join(ROOT, "properties.jsonl"))]
 checks, claimed = [], []
+registered = set(open(os.path.join(ROOT, "tools", "registered.txt")).read().split())
 for p in props:
     pid = p["id"]
     if not os.path.exists(os.path.join(ROOT, "harness", "drivers", pid + ".py")):
         continue
     mod = importlib.import_module("harness.drivers." + pid)
     m = getattr(mod, "META", None)
-    if not m or m.get("register") is False:
+    if not m or pid not in registered:
         continue
     claimed.append(pid)
     checks.append({
